@@ -205,7 +205,13 @@ def h_large(ctx, side, total):
     w = iow.IOWorker(); w.socket = env.FakeSocket(eof=False)
     c = sw.OFConnection(w)
     c.set_message_handler(lambda con, msg: delivered.append((msg.header_type, msg.pack())))
-    for k in range(0, len(stream), 8192): w._push_receive_data(stream[k:k + 8192])
+    # through the real socket-read step of the I/O loop (IOWorker._do_recv, one call per readable event, 8192-byte recv size): the socket
+    # holds the whole stream; totals that are exact multiples of the recv size end on a full read with nothing more queued
+    class Loop: _BUF_SIZE = 8192; _workers = set()
+    w.socket.feed(stream); rounds = 0
+    while w.socket.chunks and rounds < 40:
+      w._do_recv(Loop); rounds += 1
+    ctx.check('the socket was drained', not w.socket.chunks)
     ctx.check('residual empty', len(w.receive_buf) == 0)
     ctx.check('nothing sent back, not closed', not w.closed and not w._shutdown_send and len(w.send_buf) == 0)
   ctx.check('all delivered once, in order', len(delivered) == 3)
@@ -314,7 +320,7 @@ def obligations(tier):
                desc='Connection.read: delivered sequence == sent sequence for every segmentation'),
     Obligation('O2_switch', h_switch, swc, witnesses=('done',), max_decisions=50000, conc_cap=400,
                desc='IOWorker + OFConnection.read: delivered sequence == sent sequence for every segmentation'),
-    Obligation('O4_large', h_large, [dict(side=sd, total=t) for sd in ('controller', 'switch') for t in (0x7fff, 0x8000, 0xffff)], witnesses=('done',), max_decisions=50000,
+    Obligation('O4_large', h_large, [dict(side=sd, total=t) for sd in ('controller', 'switch') for t in (0x7fff, 0x8000, 0xffff)] + [dict(side='switch', total=t) for t in (8192 - 16, 16384 - 16)], witnesses=('done',), max_decisions=50000,
                desc='messages with length field 0x7fff / 0x8000 / 0xffff are framed like any other, on both sides'),
     Obligation('O3_recv2048', h_recv_boundary, [dict(extra=e) for e in (0, 1, 2)], witnesses=('done',), max_decisions=50000,
                desc="controller recv(2048) boundary: a message longer than one recv() is reassembled"),
